@@ -352,6 +352,7 @@ def showIoErr : IoErr → String
   | .connectionAborted => "aborted" | .invalidData => "invalid" | .other => "other" | .unexpectedEof => "eof"
   | .writeZero => "writezero" | .connectionReset => "reset" | .transportRead => "tread"
   | .transportWrite => "twrite" | .transportFlush => "tflush" | .writersAlive => "writers"
+  | .abortRequest => "abort-request"
 
 def parseAnsList (s : String) (f : String → Option α) : Option (List α) :=
   if s == "-" then some [] else (s.splitOn ",").mapM f
@@ -411,7 +412,7 @@ def stepAsync (st : DState) (args : List String) : Option (DState × String) :=
       match rp'.intoStreamParser with
       | .ok sp =>
         let r := Async.AReq.new sp
-        let a : AState := { req := some r, tr := { input := inp.drop la, endMode, rd, wr, fl } }
+        let a : AState := { req := some r, tr := { input := inp.drop la, endMode, rd, wr, fl, abortKind := (kv rest "ek") == some "a" } }
         let (a, suf) := aSuffix a
         some ({ st with a := a }, s!"ok active={showOptStream sp.stream}" ++ suf)
       | .error e => some (st, s!"err {showPErr e}")
@@ -568,7 +569,7 @@ def stepRun (args : List String) : Option String :=
     let stopAt ← (match (← kv rest "stop") with | "none" => some none | x => (natArg x).map some)
     let hs ← ((← kv rest "h").splitOn ";").mapM parseScript
     let c : Run.Conn := { phase := .parseReq (Req.Parser.new b mc) .start,
-                          env := { tr := { input := [], endMode, rd, wr, fl }, segs := segs }, scripts := hs }
+                          env := { tr := { input := [], endMode, rd, wr, fl, abortKind := (kv rest "ek") == some "a" }, segs := segs }, scripts := hs }
     let (c, fin) := Run.runTask 100000 c 0 stopAt
     let evs := String.intercalate " " c.env.tr.events
     some s!"{evs} {fin} wlog={hexOrDash c.env.tr.wlog}"
